@@ -97,4 +97,36 @@ WholeAt(out, c, lo, hi, mv, fv, j) ==
   /\ (out.rwobs => out.rw = Ids(fv[j].rw))
 
 WholeObs(out, c, lo, hi, mv, fv) == \E j \in lo..hi : WholeAt(out, c, lo, hi, mv, fv, j)
+
+(* ------------------------------------------------------------------------ *)
+(* OVERLAPPING admin operations.  "The table view reflects exactly the      *)
+(* sequence of changes applied": when admin operations overlap in time      *)
+(* (two goroutines: a command connection and the HTTP API, say) there is no *)
+(* given sequence; what the statement then demands is that the view is the  *)
+(* result of applying them one after the other in SOME order that respects  *)
+(* their real-time order (an operation that had returned before another was *)
+(* called comes first), every operation refused exactly when the sequential *)
+(* semantics refuse it at its place in that order -- no change is lost or   *)
+(* applied to a stale table.                                                *)
+(*   H     the operations: a sequence of records with fields                *)
+(*           op    the operation ([l, op, e, f, i, k]: list l of the state) *)
+(*           err   it returned an error                                     *)
+(*           pred  indexes (in H) of the operations that had already        *)
+(*                 returned when this one was called                        *)
+(*   S0    the state before any of them: a record of lists                  *)
+(*   Obs   the state seen after all of them have returned                   *)
+ApplyAny(S, o) == [S EXCEPT ![o.l] = ApplyOp(@, o)]
+ErrAny(S, o) == OpErr(S[o.l], o)
+
+RECURSIVE LinRun(_, _, _, _, _)
+LinRun(H, S, p, k, Obs) ==
+  IF k > Len(p) THEN S = Obs
+  ELSE /\ H[p[k]].err = ErrAny(S, H[p[k]].op)
+       /\ LinRun(H, ApplyAny(S, H[p[k]].op), p, k + 1, Obs)
+
+LinOrders(H) == {p \in [1..Len(H) -> 1..Len(H)] :
+                   /\ \A i, j \in 1..Len(H) : i # j => p[i] # p[j]
+                   /\ \A i, j \in 1..Len(H) : i < j => p[j] \notin H[p[i]].pred}
+
+Linearizable(H, S0, Obs) == \E p \in LinOrders(H) : LinRun(H, S0, p, 1, Obs)
 =============================================================================
